@@ -9,6 +9,10 @@
 (*   CollectAll  batch (needAll): wait for every submitted task, then       *)
 (*               resolve errors, route, compute the next step               *)
 (*   CollectOne  eager: wait for ONE finished task, then the same           *)
+(*   IntCollect  a collected task carries an interrupt-after mark: the next  *)
+(*               tasks are kept back, tm.waitAll() collects everything in    *)
+(*               flight, then the interrupt is returned;  Resume submits     *)
+(*               the saved tasks (configs with MaxMark > 0)                  *)
 (* for every graph that TMGen grows, every failing-node choice, and every   *)
 (* interleaving of body completions with the run loop.  Two runs of the    *)
 (* same graph are executed one after the other so that the cross-order      *)
@@ -23,19 +27,21 @@ R == INSTANCE TMConf
 
 CONSTANTS Runs,   \* runs per graph (2: the second is compared with the first)
           RBug    \* "none" | "eagerbatch" (a batch graph collected one by one) | "earlyreturn" (END assembled from a subset of its feeders)
+                  \* | "intwaitone" (the interrupt path calls the mode-dependent wait(): eager collects one more task only)
                   \* | "lostcompletion" (eager: a finished task is dropped when another finished task is waiting too)
 
 VARIABLES rs,      \* rule state (TMConf)
-          status,  \* node -> "idle" | "sub" (submitted) | "body" | "fin" (finished, not collected) | "coll" | "lost"
+          status,  \* node -> "idle" | "sub" (submitted) | "body" | "fin" (finished, not collected) | "coll" | "lost" | "next" (computed, saved for the resume)
           outv,    \* node -> rendered output of a collected node
           run,     \* index of the current run
-          rstat    \* "start" | "loop" | "ended"
-rvars == <<rs, status, outv, run, rstat>>
+          rstat,   \* "loop" | "intwait" (interrupt path: waiting for everything in flight) | "interrupted" | "ended"
+          stepc    \* interrupt path: the tasks collected in this iteration of the run loop before waitAll()
+rvars == <<rs, status, outv, run, rstat, stepc>>
 allvars == <<vars, rvars>>
 
 Eager == Mode = "wf" \/ RBug = "eagerbatch"
 FailKind(n) == IF \E i \in 1..Len(fail) : fail[i].n = n THEN (CHOOSE f \in {fail[i] : i \in 1..Len(fail)} : f.n = n).kind ELSE "none"
-CaseEv == [ev |-> "case", id |-> "m", grp |-> "m", mode |-> Mode, nodes |-> NodeSeq, edges |-> EdgeSeq, branches |-> <<>>, fail |-> fail, rerun |-> <<>>]
+CaseEv == [ev |-> "case", id |-> "m", grp |-> "m", mode |-> Mode, nodes |-> NodeSeq, edges |-> EdgeSeq, branches |-> <<>>, fail |-> fail, rerun |-> <<>>, after |-> SeqOfSet(marks.after, Ord), before |-> <<>>]
 
 RECURSIVE Join(_)
 Join(s) == IF s = <<>> THEN "" ELSE s[1] \o Join(Tail(s))
@@ -48,23 +54,23 @@ ReadyAfter(c) == {n \in Nodes \cup {END} : (n = END \/ status[n] = "idle")
                      /\ IF Mode = "pregel" THEN Preds(n) \cap c # {} ELSE Preds(n) \subseteq c \cup {START}}
 
 InitRun == /\ Init
-           /\ rs = R!Idle /\ status = [n \in Nodes |-> "idle"] /\ outv = [n \in Nodes |-> ""] /\ run = 0 /\ rstat = "ended"
+           /\ rs = R!Idle /\ status = [n \in Nodes |-> "idle"] /\ outv = [n \in Nodes |-> ""] /\ run = 0 /\ rstat = "ended" /\ stepc = {}
 
 \* a new run of the finished graph
 Start == /\ phase = "done" /\ rstat = "ended" /\ run < Runs
          /\ run' = run + 1 /\ rs' = R!Apply(rs, CaseEv)
          /\ status' = [n \in Nodes |-> IF Preds(n) = {START} \/ (Mode = "pregel" /\ START \in Preds(n)) THEN "sub" ELSE "idle"]
-         /\ outv' = [n \in Nodes |-> ""] /\ rstat' = "loop"
+         /\ outv' = [n \in Nodes |-> ""] /\ rstat' = "loop" /\ stepc' = {}
          /\ UNCHANGED vars
-Begin(n) == /\ rstat = "loop" /\ status[n] = "sub"
+Begin(n) == /\ rstat \in {"loop", "intwait"} /\ status[n] = "sub"
             /\ status' = [status EXCEPT ![n] = "body"]
             /\ rs' = R!Apply(rs, [ev |-> "exec", n |-> n, i |-> InputOf(n)])
-            /\ UNCHANGED <<vars, outv, run, rstat>>
-BodyEnd(n) == /\ rstat = "loop" /\ status[n] = "body"
+            /\ UNCHANGED <<vars, outv, run, rstat, stepc>>
+BodyEnd(n) == /\ rstat \in {"loop", "intwait"} /\ status[n] = "body"
              /\ status' = [status EXCEPT ![n] = "fin"]
              /\ outv' = [outv EXCEPT ![n] = n \o "(" \o InputOf(n) \o ")"]
              /\ rs' = R!Apply(rs, IF FailKind(n) = "none" THEN [ev |-> "done", n |-> n] ELSE [ev |-> "failed", n |-> n, kind |-> FailKind(n)])
-             /\ UNCHANGED <<vars, run, rstat>>
+             /\ UNCHANGED <<vars, run, rstat, stepc>>
 
 \* after collecting the set c (now "coll"): errors first, then routing
 AfterCollect(c, st2) ==
@@ -72,7 +78,7 @@ AfterCollect(c, st2) ==
   IF failed # {}
   THEN \E f \in failed :
          /\ rs' = R!Apply(rs, [ev |-> "error", class |-> IF FailKind(f) = "err" THEN "node" ELSE "panic", node |-> f])
-         /\ status' = st2 /\ rstat' = "ended"
+         /\ status' = st2 /\ rstat' = "ended" /\ stepc' = {}
   ELSE LET collNow == {n \in Nodes : st2[n] = "coll"}
            trig == IF Mode = "pregel" THEN c ELSE collNow
            ready == ReadyAfter(trig)
@@ -80,9 +86,13 @@ AfterCollect(c, st2) ==
        IN IF endReady
           THEN /\ rs' = R!Apply(rs, [ev |-> "result", v |-> Join([i \in 1..Cardinality(Preds(END) \cap collNow) |->
                                                                    outv[SeqOfSet(Preds(END) \cap collNow, Ord)[i]]])])
-               /\ status' = st2 /\ rstat' = "ended"
+               /\ status' = st2 /\ rstat' = "ended" /\ stepc' = {}
+          ELSE IF marks.after \cap c # {}
+          THEN \* an interrupt-after node was collected: the next tasks are kept back and the run loop waits for everything in flight
+               /\ status' = [n \in Nodes |-> IF n \in ready THEN "next" ELSE st2[n]]
+               /\ rs' = rs /\ rstat' = "intwait" /\ stepc' = c
           ELSE /\ status' = [n \in Nodes |-> IF n \in ready THEN "sub" ELSE st2[n]]
-               /\ rs' = rs /\ rstat' = rstat
+               /\ rs' = rs /\ rstat' = rstat /\ stepc' = {}
 CollectAll == /\ rstat = "loop" /\ ~Eager
               /\ LET c == {n \in Nodes : status[n] \in {"sub", "body", "fin"}} IN
                    /\ c # {} /\ \A n \in c : status[n] = "fin"
@@ -90,20 +100,45 @@ CollectAll == /\ rstat = "loop" /\ ~Eager
               /\ UNCHANGED <<vars, outv, run>>
 CollectOne(n) == /\ rstat = "loop" /\ Eager /\ status[n] = "fin"
                  /\ IF RBug = "lostcompletion" /\ \E m \in Nodes \ {n} : status[m] = "fin"
-                    THEN status' = [status EXCEPT ![n] = "lost"] /\ rs' = rs /\ rstat' = rstat
+                    THEN status' = [status EXCEPT ![n] = "lost"] /\ rs' = rs /\ rstat' = rstat /\ stepc' = stepc
                     ELSE AfterCollect({n}, [status EXCEPT ![n] = "coll"])
                  /\ UNCHANGED <<vars, outv, run>>
+\* interrupt path: tm.waitAll() collects every task in flight (batch and eager alike), END may become ready, else the interrupt is
+\* returned with the after-nodes collected in this iteration; RBug "intwaitone": the mode-dependent wait() is called instead
+IntCollect ==
+  /\ rstat = "intwait"
+  /\ LET out == {n \in Nodes : status[n] \in {"sub", "body", "fin"}} IN
+     \E c2 \in SUBSET out :
+       /\ \A n \in c2 : status[n] = "fin"
+       /\ IF RBug = "intwaitone" /\ Eager THEN Cardinality(c2) = (IF out = {} THEN 0 ELSE 1) ELSE c2 = out
+       /\ LET st2 == [n \in Nodes |-> IF n \in c2 THEN "coll" ELSE status[n]]
+              collNow == {n \in Nodes : st2[n] = "coll"}
+              ready2 == {n \in Nodes \cup {END} : (n = END \/ st2[n] = "idle") /\ Preds(n) \subseteq collNow \cup {START}}
+          IN IF END \in ready2
+             THEN /\ rs' = R!Apply(rs, [ev |-> "result", v |-> Join([i \in 1..Cardinality(Preds(END) \cap collNow) |->
+                                                                      outv[SeqOfSet(Preds(END) \cap collNow, Ord)[i]]])])
+                  /\ status' = st2 /\ rstat' = "ended"
+             ELSE /\ rs' = R!Apply(rs, [ev |-> "interrupt", rerun |-> <<>>, before |-> <<>>,
+                                        after |-> SeqOfSet(marks.after \cap (stepc \cup c2), Ord)])
+                  /\ status' = [n \in Nodes |-> IF n \in ready2 THEN "next" ELSE st2[n]] /\ rstat' = "interrupted"
+  /\ stepc' = {} /\ UNCHANGED <<vars, outv, run>>
+\* the next call with the same checkpoint id: the saved tasks are submitted
+Resume == /\ rstat = "interrupted"
+          /\ rs' = R!Apply(rs, [ev |-> "resume"])
+          /\ status' = [n \in Nodes |-> IF status[n] = "next" THEN "sub" ELSE status[n]]
+          /\ rstat' = "loop" /\ UNCHANGED <<vars, outv, run, stepc>>
 \* nothing is outstanding and the run has not returned: the run loop reports "no tasks to execute" / would block forever
 Stuck == /\ rstat = "loop" /\ \A n \in Nodes : status[n] \in {"idle", "coll", "lost"}
          /\ rs' = R!Apply(rs, [ev |-> "error", class |-> "hang", node |-> ""])
-         /\ rstat' = "ended" /\ UNCHANGED <<vars, status, outv, run>>
+         /\ rstat' = "ended" /\ UNCHANGED <<vars, status, outv, run, stepc>>
 
 RunNext == \/ (Next /\ UNCHANGED rvars)
-           \/ Start \/ CollectAll \/ Stuck
+           \/ Start \/ CollectAll \/ Stuck \/ IntCollect \/ Resume
            \/ \E n \in Nodes : Begin(n) \/ BodyEnd(n) \/ CollectOne(n)
 RunSpec == InitRun /\ [][RunNext]_allvars
 
 RuleHolds == rs.bad = ""
+NoBefore == marks.before = {}        \* (CONSTRAINT of the interrupt configs: interrupt-before marks are not modelled here)
 \* the second run was really compared with the first
 Compared == (run = Runs /\ rstat = "ended" /\ Runs >= 2) => rs.ref.has
 ================================================================================
